@@ -18,6 +18,13 @@ thread_local! {
     static FREED: Cell<[(usize, usize); 16]> = const { Cell::new([(0, 0); 16]) };
     static NFREED: Cell<usize> = const { Cell::new(0) };
     static ENABLED: Cell<bool> = const { Cell::new(false) };
+    /// Fault injection: size of the zero-initialised allocation that is to fail next on this
+    /// thread (0 = none). Only `alloc_zeroed` is affected: that is what zerocopy's
+    /// `new_box_zeroed*` constructors call, and they report a null return as `Err(AllocError)`
+    /// (the library unwraps it: a clean panic). Plain `alloc` failures end in
+    /// `handle_alloc_error`, which aborts the process, and are not injected.
+    static FAIL_ZEROED: Cell<usize> = const { Cell::new(0) };
+    static FAIL_FIRED: Cell<bool> = const { Cell::new(false) };
 }
 
 pub struct WatchAlloc;
@@ -29,6 +36,20 @@ unsafe impl GlobalAlloc for WatchAlloc {
         unsafe { System.alloc(l) }
     }
     unsafe fn alloc_zeroed(&self, l: Layout) -> *mut u8 {
+        let fail = FAIL_ZEROED
+            .try_with(|c| {
+                if c.get() != 0 && c.get() == l.size() {
+                    c.set(0);
+                    true
+                } else {
+                    false
+                }
+            })
+            .unwrap_or(false);
+        if fail {
+            let _ = FAIL_FIRED.try_with(|f| f.set(true));
+            return std::ptr::null_mut();
+        }
         // SAFETY: forwarded.
         unsafe { System.alloc_zeroed(l) }
     }
@@ -101,7 +122,21 @@ pub fn freed_while_posted(ptr: usize, len: usize) -> bool {
     FREED.with(|f| f.get().iter().take(k).any(|(s, e)| *s < ptr + len && ptr < *e))
 }
 
+/// Arms the fault: the next zero-initialised heap allocation of exactly `size` bytes made by this
+/// thread fails (returns null).
+pub fn arm_zeroed_failure(size: usize) {
+    FAIL_FIRED.with(|f| f.set(false));
+    FAIL_ZEROED.with(|c| c.set(size));
+}
+
+/// Disarms the fault and tells whether it fired.
+pub fn disarm_zeroed_failure() -> bool {
+    FAIL_ZEROED.with(|c| c.set(0));
+    FAIL_FIRED.with(|f| f.replace(false))
+}
+
 pub fn disable() {
+    let _ = FAIL_ZEROED.try_with(|c| c.set(0));
     let _ = NFREED.try_with(|c| c.set(0));
     let _ = ENABLED.try_with(|e| e.set(false));
     let _ = N.try_with(|c| c.set(0));
